@@ -89,6 +89,32 @@ namespace CDNS {
         explicit BlockTable() {}
 
         /**
+         * @brief Copying or moving a table has to rebuild the index, because its keys are references
+         * to the items stored in the table they belong to
+         */
+        BlockTable(const BlockTable& other) : items_(other.items_) { rebuild_index(); }
+        BlockTable(BlockTable&& other) : items_(std::move(other.items_)) { rebuild_index(); other.clear(); }
+
+        BlockTable& operator=(const BlockTable& rhs) {
+            if (this != &rhs) {
+                indexes_.clear();
+                items_ = rhs.items_;
+                rebuild_index();
+            }
+            return *this;
+        }
+
+        BlockTable& operator=(BlockTable&& rhs) {
+            if (this != &rhs) {
+                indexes_.clear();
+                items_ = std::move(rhs.items_);
+                rebuild_index();
+                rhs.clear();
+            }
+            return *this;
+        }
+
+        /**
          * @brief Find if a key value is in the list
          * 
          * @param key the key value to search for.
@@ -209,6 +235,17 @@ namespace CDNS {
         }
 
     private:
+        /**
+         * @brief Rebuild the index of keys from the stored items
+         */
+        void rebuild_index()
+        {
+            indexes_.clear();
+            CDNS::index_t pos = 0;
+            for (const auto& item : items_)
+                indexes_[KeyRef<K>(item.key())] = pos++;
+        }
+
         /**
          * @brief Record the key to the latest item in the vector.
          * 
